@@ -308,6 +308,23 @@ func (ru *Rule) Text(r *rand.Rand) string {
 	return fmt.Sprintf("%s%sbegin%s%send\n", ru.Header(r), ws(r), ws(r), ru.Body(r))
 }
 
+// Groups renders the set as n texts (n>=1) over a random partition of the rules.
+func (rs *RuleSet) Groups(r *rand.Rand, n int) []string {
+	idx := r.Perm(len(rs.Rules))
+	if n > len(idx) {
+		n = len(idx)
+	}
+	out := make([]string, n)
+	for j, i := range idx {
+		g := j % n
+		if j >= n {
+			g = r.Intn(n)
+		}
+		out[g] += rs.Rules[i].Text(r)
+	}
+	return out
+}
+
 // Print renders the whole set; rule order in the text is shuffled so that text order and
 // priority order are unrelated.
 func (rs *RuleSet) Print(r *rand.Rand) string {
